@@ -143,6 +143,27 @@ def run(tier, replay=None):
             what = line.get("k") or ("list-result" if isinstance(line.get("res"), list) else "call-result")
             run_.diverge("not-linearizable registry=%s at=%s" % (kind, what),
                          "no choice of linearization points explains the history of %s; first inexplicable event #%d: %s" % (tid, pos, json.dumps(line)), rps[tid])
+    # ---- the notification-handler registry: registered, replaced and removed while notifications are dispatched, also from
+    # inside a handler (one-shot) and while a slow handler runs; every registry operation is atomic and COMPLETES
+    nout = common.run_harness_json(["c12"], {"notif": True}, timeout=120, crash_ok=True)
+    if "_crash" in nout:
+        run_.diverge("registry=notification-handlers process-crash", nout["_crash"][:1200], {"cmd": ["c12"], "input": {"notif": True}})
+    else:
+        for r in nout.get("notif") or []:
+            run_.evaluations += 1
+            rp = {"cmd": ["c12"], "input": {"notif": True}, "observed": r, "spec": "Registry (operations are atomic and complete)"}
+            if r.get("broken"):
+                raise common.Broken("notification-handler scenario: %s" % r["broken"])
+            if r.get("hung"):
+                run_.diverge("registry=notification-handlers kind=%s operation-never-completes" % r["kind"],
+                             "'%s' did not return within 3 s; steps: %s" % (r["hung"], r["steps"]), rp)
+            elif r["max_reg_ms"] > 1000:
+                run_.diverge("registry=notification-handlers kind=%s operation-blocked" % r["kind"],
+                             "a registry operation took %.0f ms while a handler was running; steps: %s" % (r["max_reg_ms"], r["steps"]), rp)
+            elif r["seen_by"] != [1, 2, 3, 4]:
+                run_.diverge("registry=notification-handlers kind=%s wrong-handler" % r["kind"],
+                             "notifications 1..4 were seen by handler versions %s, the registrations in force were 1, 2, 3, 4" % r["seen_by"], rp)
+            run_.nontriv(["notification-handlers", r["kind"]])
     run_.rule = ("histories = seeded random concurrent workloads (4-5 goroutines x 12-16 operations over 3 names, each registry) on a real server; "
                  "non-trivial = histories in which operations really overlap (an invocation logged while another is pending)")
     run_.assumptions = ["log order = order of the harness mutex at invocation / return marks (real-time precedence only)",
